@@ -13,7 +13,7 @@ TECHNIQUE = "explicit enumeration of all event histories (execute / check-condit
 RULE = ("all sequences of up to D events (D=5 quick, 6 thorough) over {execute GOOD, execute CHECK CONDITION, replug (node replaced by a new "
         "inode), unplug, sabotage (next close() of the live handle fails with EBADF), open-fault (the next open() of the device path fails once with EACCES)}, each followed by every closing event {none, close(), "
         "with-block normal exit, with-block exit by exception, SCSI facade with-block exit, exit of a facade that was used for and left another device before}, x replug detection {on, off} x {read-only, "
-        "read-write}; histories one event shorter also with the device path being a symbolic link to the node that is replaced, with the node being a character special file replaced by one of the same device number, and with the path being a link re-pointed to a node of another name while the old node stays (device object from init_device); plus ISCSIDevice close/with/disconnect histories. states = distinct (reference-model state, observed handle set) "
+        "read-write}; histories one event shorter also with the device path being a symbolic link to the node that is replaced, with the node being a character special file replaced by one of the same device number, and with the path being a link re-pointed to a node of another name while the old node stays (device object from init_device); histories with an unplug also with the node vanishing as ELOOP (self-referencing link) and ENOTDIR (its directory replaced by a file); plus ISCSIDevice close/with/disconnect histories. states = distinct (reference-model state, observed handle set) "
         "pairs; transitions = events executed on the real device. Non-trivial = history contains replug, unplug or sabotage.")
 ASSUMPTIONS = [
     "device nodes are real files under /dev/shm/pyscsi-verif-<pid>/ (real inodes, real open/stat/close); replug = rename of a new file over the path, old inode kept alive by a hard link so inode numbers are never recycled",
@@ -46,7 +46,7 @@ class Boom(Exception):
     pass
 
 
-def run_history(detect, rw, events, closer, obs=None, symlink=False, chr=False, factory=False):
+def run_history(detect, rw, events, closer, obs=None, symlink=False, chr=False, factory=False, vanish="unlink"):
     """replay one history on a fresh device; returns violations"""
     install.ensure()
     from pyscsi.pyscsi.scsi_cdb_testunitready import TestUnitReady
@@ -61,7 +61,7 @@ def run_history(detect, rw, events, closer, obs=None, symlink=False, chr=False, 
             cur = None
         seen.append((st.st_ino, cur))
 
-    node = nodes.Node(lambda g: Target(), symlink=symlink, chr=chr)
+    node = nodes.Node(lambda g: Target(), symlink=symlink, chr=chr, vanish=vanish)
     registry.sgio_hooks.append(hook)
     dev = None
     import builtins
@@ -227,7 +227,7 @@ def run_history(detect, rw, events, closer, obs=None, symlink=False, chr=False, 
                 out.append(("close_raises", "after %r: %s raised %s: %s" % (events, closer, type(err).__name__, err)))
             if err is None and not m["sab"]:
                 # released exactly once: a second close() is harmless and must not disturb other descriptors
-                probe = os.open(node.path + ".keep1", os.O_RDONLY)
+                probe = os.open(node.keep_path(1), os.O_RDONLY)
                 try:
                     dev.close()
                 except Exception:
@@ -341,7 +341,8 @@ def run_case(case, obs=None):
     if case[0] == "sg":
         _, detect, rw, events, closer = case[:5]
         kind = case[5] if len(case) > 5 else 0
-        return run_history(detect, rw, events, closer, obs, symlink=(kind == 1) or ("repoint" if kind == 3 else False), chr=kind == 2, factory=kind == 3)
+        return run_history(detect, rw, events, closer, obs, symlink=(kind == 1) or ("repoint" if kind == 3 else False), chr=kind == 2, factory=kind == 3,
+                           vanish={4: "eloop", 5: "enotdir"}.get(kind, "unlink"))
     return run_iscsi(case[1], obs)
 
 
@@ -397,4 +398,8 @@ def run_partition(part, tier, seed):
             # belongs to another device now), the device object obtained through pyscsi.utils.init_device
             if detect:
                 do(["sg", detect, rw, events, "close", 3], any(e in events for e in "ruso"), len(events))
+            # ... and with other ways for the node to vanish: its name becomes a self-referencing link (ELOOP), its directory a plain file (ENOTDIR)
+            if "u" in events:
+                do(["sg", detect, rw, events, "close", 4], True, len(events))
+                do(["sg", detect, rw, events, "close", 5], True, len(events))
     return acc
